@@ -294,6 +294,22 @@ class Attrs:
         self.h._check_write("create attribute")
         self.h.node.attrs[name] = _attr_in(value)
 
+    def get_id(self, name):
+        """low-level attribute id: only its shape is modelled"""
+        self.h.file._check_open()
+        v = self.h.node.attrs[name]
+
+        class _AttrId:
+            pass
+        a = _AttrId()
+        if isinstance(v, _np.ndarray):
+            a.shape = tuple(v.shape)
+        elif isinstance(v, (list, tuple)):
+            a.shape = (len(v),)
+        else:
+            a.shape = ()
+        return a
+
     def modify(self, name, value):
         """h5py: change the value while PRESERVING the attribute's stored type (a missing attribute is
         created) - pinned by the differential script"""
@@ -1805,6 +1821,8 @@ def _script_tables(h5, path):
                 return list(_np.asarray(v).tolist()) if isinstance(v, (list, tuple, _np.ndarray)) else v
             obs.append(("modify", name, repr(val), ex(lambda: g.attrs.modify(name, val)),
                         ex(lambda: seq(g.attrs[name])), ex(lambda: _attr_kind(g.attrs[name]))))
+        obs.append(("attr-id-shape", g.attrs.get_id("i").shape, g.attrs.get_id("s").shape,
+                    tuple(g.attrs.get_id("l").shape), ex(lambda: g.attrs.get_id("nope"))[0]))
         # numeric arrays: the whole selection is validated before anything is read
         a = f.require_dataset("a", shape=(3, 4), dtype=_np.float64, chunks=True, maxshape=(None, None))
         a[...] = _np.arange(12.0).reshape(3, 4)
